@@ -34,9 +34,7 @@ def queries(tier):
         if (w, two) in seen:
             continue
         seen.add((w, two))
-        w2 = w[:-2] if (w.endswith(" Z") and ",1)" in w.replace("T(0,1)", "").replace("T(1,1)", "") and tier == "quick") else w
-        if "R(0,2,1)" in w and " X(" in w:
-            w2 = w   # close with two receives pending after one was cancelled: the close IS the subject (these finish in seconds)
+        w2 = w   # (an earlier version stripped the final close from quick-tier skeletons with blocking receives; they finish in seconds, and the close matters: C10D)
         defs = {"SKEL": w2}
         if two:
             defs["TWOCTX"] = 1
